@@ -49,7 +49,7 @@ func Reset() {
 	mu.Lock()
 	defer mu.Unlock()
 	assignment = map[string]string{}
-	Failures, Reached, Notes, Passed = nil, nil, nil, 0
+	Failures, Reached, Notes, Passed, Obs = nil, nil, nil, 0, nil
 }
 
 func Set(name, val string) { assignment[name] = val }
@@ -221,7 +221,43 @@ func pass() {
 	mu.Unlock()
 }
 
+// Observations (label, value of the left operand) for translator validation.
+var Observe bool
+var Obs []string
+
+func obs(label string, v any) {
+	if !Observe {
+		return
+	}
+	var t string
+	switch x := v.(type) {
+	case float64:
+		t = strconv.FormatFloat(x, 'g', 17, 64)
+	case float32:
+		t = strconv.FormatFloat(float64(x), 'g', 17, 64)
+	case bool:
+		t = fmt.Sprint(x)
+	case string:
+		t = x
+	default:
+		rv := reflect.ValueOf(v)
+		if rv.IsValid() && rv.CanInt() {
+			t = strconv.FormatInt(rv.Int(), 10)
+		} else {
+			t = "?"
+		}
+	}
+	mu.Lock()
+	Obs = append(Obs, label+" "+t)
+	mu.Unlock()
+}
+
 func Assert(label string, c bool) {
+	obs(label, c)
+	assert0(label, c)
+}
+
+func assert0(label string, c bool) {
 	if !c {
 		fail(label)
 	} else {
@@ -252,9 +288,12 @@ func eq(a, b any) bool {
 }
 
 // AssertEq: exact in the symbolic (real-valued) semantics, tolerance natively.
-func AssertEq(label string, a, b any) { Assert(label, eq(a, b)) }
+func AssertEq(label string, a, b any) {
+	obs(label, a)
+	assert0(label, eq(a, b))
+}
 
-func AssertEqAt(label string, k int, a, b any) { AssertAt(label, k, eq(a, b)) }
+func AssertEqAt(label string, k int, a, b any) { AssertEq(fmt.Sprintf("%s[%d]", label, k), a, b) }
 
 // KnownFinding is an assertion whose failure is a recorded finding.
 func KnownFinding(id, label string, c bool)           { Assert(label, c) }
